@@ -7,6 +7,7 @@ import (
 	"errors"
 	"fmt"
 	"io"
+	"math"
 	"net/http"
 	"net/http/httptest"
 	"runtime"
@@ -24,8 +25,9 @@ import (
 //   exp <exporter> <M> <L>                     enumerate every fault the exporter can meet on a store
 //                                              of M metrics x L label sets; OBS bad=0/1
 //   one <exporter> <M> <L> <kind> <mi> <li>    a single fault (replay form); OBS -
-// exporters: prom (Registry.Gather -> Collect), push (writeSocketMetrics), varz, graphite
-// fault kinds: utf8 (label value not UTF-8), name (metric name not representable),
+// exporters: prom (Registry.Gather -> Collect), push (writeSocketMetrics), varz, graphite,
+//   json (HandleJSON -> Store.MarshalJSON)
+// fault kinds: nan / inf (json: the datum at that position is a float JSON cannot represent), utf8 (label value not UTF-8), name (metric name not representable),
 //   dup (duplicate label name), write (io.Writer fails at the k-th write, k = mi*L+li),
 //   cancel (request context cancelled after k writes), none
 
@@ -41,14 +43,29 @@ func c12Store(M, L int, kind string, mi, li int) (*metrics.Store, []*metrics.Met
 		if kind == "dup" && i == mi {
 			keys = []string{"prog"}
 		}
-		m := metrics.NewMetric(name, "prog", metrics.Counter, metrics.Int, keys...)
+		typ := metrics.Int
+		if (kind == "nan" || kind == "inf") && i == mi {
+			typ = metrics.Float
+		}
+		m := metrics.NewMetric(name, "prog", metrics.Counter, typ, keys...)
 		for j := 0; j < L; j++ {
 			lv := fmt.Sprintf("v%d", j)
 			if kind == "utf8" && i == mi && j == li {
 				lv = "\xff"
 			}
 			d, _ := m.GetDatum(lv)
-			datum.SetInt(d, int64(j), time.Unix(1, 0))
+			if typ == metrics.Float {
+				v := float64(j)
+				if j == li {
+					v = math.NaN()
+					if kind == "inf" {
+						v = math.Inf(1 - 2*(j%2))
+					}
+				}
+				datum.SetFloat(d, v, time.Unix(1, 0))
+			} else {
+				datum.SetInt(d, int64(j), time.Unix(1, 0))
+			}
 		}
 		_ = s.Add(m)
 		ms = append(ms, m)
@@ -66,6 +83,19 @@ func (w *failingWriter) Write(p []byte) (int, error) {
 		return 0, errors.New("injected write failure")
 	}
 	return len(p), nil
+}
+
+type failingRW struct {
+	*httptest.ResponseRecorder
+	n, failAt int
+}
+
+func (w *failingRW) Write(p []byte) (int, error) {
+	w.n++
+	if w.n > w.failAt {
+		return 0, errors.New("injected write failure")
+	}
+	return w.ResponseRecorder.Write(p)
 }
 
 type cancellingRW struct {
@@ -162,6 +192,15 @@ func c12One(exp string, M, L int, kind string, mi, li int) (int, int, string) {
 			if err := e.VerifWriteSocketMetrics(w, "graphite"); err != nil {
 				note = "err"
 			}
+		case "json":
+			rw := &failingRW{ResponseRecorder: httptest.NewRecorder(), failAt: 1 << 30}
+			if kind == "write" {
+				rw.failAt = 0
+			}
+			e.HandleJSON(rw, httptest.NewRequest(http.MethodGet, "/json", nil))
+			if rw.Code != http.StatusOK {
+				note = "err"
+			}
 		case "varz", "graphite":
 			rctx, rcancel := context.WithCancel(context.Background())
 			defer rcancel()
@@ -227,6 +266,13 @@ func c12Faults(exp string, M, L int) [][3]string {
 				if li == 0 {
 					add("write+w", mi, li)
 				}
+			case "json":
+				add("nan", mi, li)
+				add("inf", mi, li)
+				if li == 0 {
+					add("nan+w", mi, li)
+					add("utf8", mi, li)
+				}
 			case "varz", "graphite":
 				add("cancel", mi, li)
 				add("utf8", mi, li)
@@ -238,6 +284,9 @@ func c12Faults(exp string, M, L int) [][3]string {
 		if exp == "prom" {
 			add("name", mi, 0)
 			add("dup", mi, 0)
+		}
+		if exp == "json" {
+			add("write", mi, 0)
 		}
 	}
 	return out
@@ -295,7 +344,7 @@ func init() {
 			if g.thorough() {
 				maxM, maxL = 4, 6
 			}
-			for _, exp := range []string{"prom", "push", "varz", "graphite"} {
+			for _, exp := range []string{"prom", "push", "varz", "graphite", "json"} {
 				for M := 0; M <= maxM; M++ {
 					for L := 0; L <= maxL; L++ {
 						g.emit("exp", exp, strconv.Itoa(M), strconv.Itoa(L))
